@@ -14,8 +14,10 @@ PROP_UNITS = {
     'C02': ['position'],
     'C11': ['draws'],
     'C20': ['csp'],
-    'C12': ['tt'],
+    'C12': ['tt', 'mate'],
     'C01': ['bits', 'movegen'],
+    'C04': ['tt', 'mate'],
+    'C13': ['mate'],
 }
 
 
